@@ -9,5 +9,6 @@ CONSTANTS
  CCoins <- AllZq
  SCoins <- C1a
  Tamper = TRUE
+ PowM <- TabPowM
 INVARIANTS Correct HonestAbort Refusal OneOnly Curious CuriousPairs
 CHECK_DEADLOCK FALSE
